@@ -21,6 +21,13 @@ CORPUS_FAULT = [
 ]
 
 CORPUS = [
+    # partition_unique keep=last: a key seen again AFTER another key moves to the end of the batch, and so must its metadata
+    {"mode": "sync", "nodes": [{"kind": "source", "ups": []}, {"kind": "partition_unique", "ups": [0], "n": 3, "key": ["modk", 3], "keep": "last"},
+                               {"kind": "sink", "mode": "sync", "f": ["id"], "ups": [1]}],
+     "ops": [{"op": "emit", "node": 0, "val": v, "md": [{"tag": 30 + i, "ref": 1 + i}]} for i, v in enumerate((1, 2, 4, 3, 5, 7, 5, 8, 6))]},
+    {"mode": "sync", "nodes": [{"kind": "source", "ups": []}, {"kind": "partition_unique", "ups": [0], "n": 2, "key": ["modk", 2], "keep": "first"},
+                               {"kind": "sink", "mode": "sync", "f": ["id"], "ups": [1]}],
+     "ops": [{"op": "emit", "node": 0, "val": v, "md": [{"tag": 50 + i, "ref": None}]} for i, v in enumerate((1, 3, 2, 4, 6, 5))]},
     {"mode": "sync", "nodes": [{"kind": "source", "ups": []}, {"kind": "partition_unique", "ups": [0], "n": 2, "key": ["modk", 3], "keep": "last"},
                                {"kind": "sink", "mode": "sync", "f": ["id"], "ups": [1]}],
      "ops": [{"op": "emit", "node": 0, "val": v, "md": [{"tag": 10 + i, "ref": None}]} for i, v in enumerate((1, 4, 2, 5))]},
